@@ -31,6 +31,7 @@ CONSTANTS
                     \* "ready_unknown": Ready/Shadow for a removed id is ignored (was: panic); Ready only wakes a Busy tracker
                     \* "unsuback_one":  exactly one UNSUBACK per UNSUBSCRIBE (was: one per filter actually removed, none otherwise)
                     \* "unsub_notifs":  unsubscribe also drops the request from `notifications`
+                    \* "resume_submap": subscriptions of a resumed session are registered in subscription_map again
 
 NONE == "none"
 Ids == 0..(MaxConn - 1)
@@ -240,6 +241,7 @@ EvConnect(s, n) ==
                         !.free = IF r.free # <<>> THEN Tail(@) ELSE @,
                         !.nextKey = IF r.free # <<>> THEN @ ELSE @ + 1,
                         !.connMap[cid] = id,
+                        !.subMap = IF "resume_submap" \in RFix THEN [f \in DOMAIN @ |-> IF f \in c2.subs THEN @[f] \cup {id} ELSE @[f]] ELSE @,
                         !.grave[cid] = NOGRAVE,                       \* graveyard.retrieve removes the entry
                         !.wills[cid] = IF nt.will # NOMSG THEN nt.will ELSE @]
         r2 == Reschedule(r1, id, "Init")
